@@ -183,6 +183,18 @@ func (o *objectImpl) SetProperty(name value.Value, newValue value.Value) error {
 		return fmt.Errorf("invalid signature: %s", err)
 	}
 	data := buf.Bytes()
+	// the value must be of the declared type: the data is decoded
+	// with the declared type whatever the signature of the value.
+	declared := ""
+	for _, property := range o.meta.Properties {
+		if property.Name == nameStr {
+			declared = property.Signature
+		}
+	}
+	if declared != "" && sig != declared {
+		return fmt.Errorf("wrong type for property %s: %s instead of %s",
+			nameStr, sig, declared)
+	}
 	err = o.onPropertyChange(nameStr, data)
 	if err != nil {
 		return err
